@@ -172,6 +172,17 @@ func genOps(r *hx.Rng) string {
 func main() {
 	o := hx.ParseFlags()
 	defer hx.Flush()
+	if strings.HasPrefix(o.Extra, "lines") {
+		// -extra lines,wide=<n>,huge=<n>,shapes=<n>[,src=<case id>]   (see lines.go)
+		extra := map[string]string{}
+		for _, kv := range strings.Split(o.Extra, ",")[1:] {
+			if p := strings.SplitN(kv, "=", 2); len(p) == 2 {
+				extra[p[0]] = p[1]
+			}
+		}
+		linesMain(o, extra)
+		return
+	}
 	for i, in := range hx.ReadInputs(o.Input) {
 		hx.Emit(fmt.Sprintf("c%d", i), in, run(in))
 	}
